@@ -1096,6 +1096,7 @@ pub fn builtin_catalog() -> Catalog {
             add!(LinkedList<$e>, "LinkedList");
             add!(BTreeSet<$e>, "BTreeSet");
             add!(HashSet<$e>, "HashSet");
+            add!([$e; 0], "Array0");
             add!([$e; 2], "Array2");
             add!([$e; 3], "Array3");
             add!([$e; 70], "Array70");
@@ -1136,6 +1137,7 @@ pub fn builtin_catalog() -> Catalog {
         add!(Bytes, "m.Bytes");
         add!([u8; 4], "m.Array4<u8>");
         add!([u8; 3], "m.Array3<u8>");
+        add!([u8; 0], "m.Array0<u8>");
         add!(SliceOf<u8>, "m.SliceOf<u8>");
         add!(RcSlice<u8>, "m.RcSlice<u8>");
         matrix.push(g);
